@@ -228,6 +228,87 @@ PREFIXES = {
 PROPS = sorted(PREFIXES)
 
 
+def run_all(tier, workdir):
+    """All generator groups and the seeded random runs of the tier: G per group, then ONE X run per kind and ONE V run
+    over the concatenated trace (saves the per-run JVM overhead). Cached by tree hash."""
+    seed = vlib.seed()
+    cpath = _cache_path(vlib.tree_hash(), "yata", "all", tier, seed)
+    if os.path.exists(cpath):
+        with open(cpath) as f:
+            r = json.load(f)
+        r["cached"] = True
+        return r
+    plan = TIERS[tier]
+    t0 = time.time()
+    wd = os.path.join(workdir, "yata-all")
+    shutil.rmtree(wd, ignore_errors=True)
+    os.makedirs(wd)
+    gstats, scheds = [], []
+    for g in plan["gen"]:
+        hists, st = gen_hists(g, tier, workdir)
+        sc = make_schedules(hists, g, seed)
+        st = dict(st)
+        st["group"], st["used"] = g, len(sc)
+        gstats.append(st)
+        scheds += sc
+    sfile, tfile = os.path.join(wd, "schedules.ndjson"), os.path.join(wd, "trace.ndjson")
+    with open(sfile, "w") as f:
+        for s in scheds:
+            f.write(json.dumps(s) + "\n")
+    tx = time.time()
+    xs = vlib.run_x(["yata-run", "--in", sfile, "--out", tfile, "--seed", str(seed)])
+    nrand = 0
+    for i in range(plan["random"]):
+        rs, rt = os.path.join(wd, "rs%d.ndjson" % i), os.path.join(wd, "rt%d.ndjson" % i)
+        vlib.run_x(["yata-random", "--out-sched", rs, "--out", rt, "--seed", str(_h(seed, i, "yata") % (1 << 31)),
+                    "--behaviours", str(150 if tier == "quick" else 400), "--ops", str(12 if i % 2 == 0 else 40), "--ext", "", "--gc-off", "0"])
+        with open(rs) as f:
+            rsch = [json.loads(ln) for ln in f if ln.strip()]
+        nrand += len(rsch)
+        scheds += rsch
+        with open(tfile, "a") as out, open(rt) as f:
+            shutil.copyfileobj(f, out)
+        os.remove(rs)
+        os.remove(rt)
+    tv = time.time()
+    merged = vlib.validate("Trace_Yata", "Trace_Yata.cfg", tfile, os.path.join(wd, "v"), parallel=8)
+    by_bid = {s["bid"]: s for s in scheds}
+    bad = {}
+    for bid, pred, line in merged["viol"]:
+        bad.setdefault(bid, []).append([pred, line])
+    events = {}
+    if bad:
+        evs, cur = {}, None
+        with open(tfile) as f:
+            for ln in f:
+                if ln.startswith('{"bid":'):
+                    cur = json.loads(ln)["bid"]
+                    cur = cur if cur in bad else None
+                    if cur:
+                        evs[cur] = []
+                elif cur:
+                    evs[cur].append(ln)
+        for b, preds in bad.items():
+            k = min(p[1] for p in preds)
+            if b in evs and 1 <= k <= len(evs[b]):
+                events[b] = json.loads(evs[b][k - 1])
+    nt = [hashlib.sha256(json.dumps(s["steps"], sort_keys=True).encode()).hexdigest()[:16] for s in scheds if nontrivial(s)]
+    res = {"group": "yata-all", "engine": "yata", "gstats": gstats, "x": xs, "random_behaviours": nrand,
+           "x_wall": tv - tx, "v_wall": time.time() - tv, "merged": merged,
+           "bad": {b: {"preds": p, "schedule": by_bid.get(b), "event": events.get(b)} for b, p in bad.items()},
+           "nontrivial": sorted(set(nt)), "samples": [scheds[i] for i in (0, len(scheds) // 3, (2 * len(scheds)) // 3) if scheds],
+           "wall": time.time() - t0, "cached": False}
+    with open(cpath, "w") as f:
+        json.dump(res, f)
+    if not bad:
+        for p in (tfile, sfile):
+            try:
+                os.remove(p)
+            except OSError:
+                pass
+    return res
+
+
 def check(prop, tier):
     ev = vlib.Evidence(prop, tier)
     bt = vlib.build_harness("yx")
@@ -236,27 +317,23 @@ def check(prop, tier):
     for d in plan["design"]:
         r = run_design(d, tier, wd)
         ev.add_tlc(D_GROUPS[d][1], r, "design")
-    results = []
-    for g in plan["gen"]:
-        r = run_group(g, tier, wd)
-        results.append(r)
-        ev.add_tlc(G_GROUPS[g][1], {"distinct": r["g"]["distinct"], "generated": r["g"]["generated"],
-                                    "depth": r["g"]["depth"], "wall": r["g"]["wall"], "replay": [0] * r["g"]["replay"]}, "G")
-        ev.add_v(g, r["merged"], r["nontrivial"], r["v_wall"])
-        for s in r["samples"]:
-            ev.sample(s)
-    for i in range(plan["random"]):
-        r = run_random(i, tier, wd)
-        results.append(r)
-        ev.add_v(r["group"], r["merged"], r["nontrivial"], r["v_wall"])
+    r = run_all(tier, wd)
+    for g in r["gstats"]:
+        ev.add_tlc(G_GROUPS[g["group"]][1], {"distinct": g["distinct"], "generated": g["generated"], "depth": g["depth"],
+                                              "wall": g["wall"], "replay": [0] * g["replay"]}, "G")
+    ev.add_v("all groups + %d random behaviours" % r["random_behaviours"], r["merged"], r["nontrivial"], r["v_wall"])
+    for s in r["samples"]:
+        ev.sample(s)
+    ev.cov["groups"] = [{k: g[k] for k in ("group", "replay", "used")} for g in r["gstats"]]
     ev.cov["rule"] = ("behaviours = TLC-enumerated histories (all operation sequences within the bounds of the G "
-                      "configurations x all delivery orders to an observer) plus seeded random schedules, executed on the "
+                      "configurations x all delivery orders to an observer; nested/merged groups validated on a seeded sample, sizes in "
+                      "'groups') plus seeded random schedules, executed on the "
                       "real library and validated by TLC against Trace_Yata; distinct = distinct step sequences; "
                       "non-trivial = some update is delivered out of emission order / twice / merged, or a state-vector sync "
                       "happens before the closing exchange")
     ev.cov["harness_build_s"] = round(bt, 1)
     ev.assumptions = ["TLC, CommunityModules", "harness adapters and observation functions (obs.rs, codec.rs)",
                       "hook H1 (yrs::verif) reports the item lists faithfully"]
-    rc = vlib.report(prop, ev, results, PREFIXES[prop])
+    rc = vlib.report(prop, ev, [r], PREFIXES[prop])
     ev.write()
     return rc
